@@ -8,8 +8,10 @@ import (
 	"encoding/base64"
 	"encoding/binary"
 	"fmt"
+	"math/big"
 	"math/bits"
 	"runtime"
+	"strings"
 	"sync"
 
 	"github.com/miekg/dns"
@@ -615,6 +617,95 @@ func checkSign(c sigCase) (err error) {
 	}
 	// the key
 	retag := func(w *world) { w.F.KeyTag = ref.KeyTag(w.keyRdata()) }
+	signAs := func(w *world) bool { // a signature with the scheme of the RRSIG's algorithm number over the world's own fields
+		d, e := signedData(w.Set, w.F)
+		if e != nil {
+			return false
+		}
+		s, e := ref.SignSig(w.F.Alg, priv, d, nil)
+		if e != nil {
+			return false
+		}
+		w.Signature = s
+		return true
+	}
+	// sibling algorithm numbers: same key material, another number in the DNSKEY or in the RRSIG, with
+	// key tag and signature recomputed so that nothing but the number disagrees (RFC 4034 2.1.3 /
+	// 3.1.2: the key's algorithm must be the RRSIG's - 5 and 7 share key format and hash, 8 / 10 the
+	// key format, 13 / 14 nothing)
+	for _, a := range algs {
+		if a == c.Alg {
+			continue
+		}
+		a := a
+		add(fmt.Sprintf("DNSKEY re-labelled algorithm %d, same key octets (tag and signature made to fit)", a), func(w *world) bool {
+			w.KeyAlg = a
+			retag(w)
+			return signAs(w)
+		})
+		add(fmt.Sprintf("RRSIG re-labelled algorithm %d and signed with that scheme by the same key (DNSKEY unchanged)", a), func(w *world) bool {
+			w.F.Alg = a
+			return signAs(w)
+		})
+	}
+	if rk, ok := priv.(*rsa.PrivateKey); ok {
+		// the exponent field of RFC 3110 written with junk in front that a 64-bit accumulator shifts
+		// out: 01 00..00 | e (nine octets and more): not the key the signature was made with
+		e := big.NewInt(int64(rk.E)).Bytes()
+		for _, extra := range []int{0, 1, 7} {
+			extra := extra
+			add(fmt.Sprintf("RSA exponent written as 01 followed by %d zero octets and e (tag made to fit)", 8-len(e)+extra), func(w *world) bool {
+				ex := append([]byte{1}, make([]byte, 8-len(e)+extra)...)
+				ex = append(ex, e...)
+				w.KeyOctets = append(append([]byte{byte(len(ex))}, ex...), rk.N.Bytes()...)
+				retag(w)
+				return signAs(w)
+			})
+		}
+		add("RSA exponent length in the three-octet form (tag and signature made to fit)", func(w *world) bool {
+			w.KeyOctets = append(append([]byte{0, 0, byte(len(e))}, e...), rk.N.Bytes()...)
+			retag(w)
+			return signAs(w)
+		})
+		add("RSA modulus with a leading zero octet (tag and signature made to fit)", func(w *world) bool {
+			w.KeyOctets = append(append(append([]byte{byte(len(e))}, e...), 0), rk.N.Bytes()...)
+			retag(w)
+			return signAs(w)
+		})
+	}
+	// text-level alterations of the base64 fields: every string that is not base64 (RFC 4648 section 4,
+	// strict) of a valid signature / of the key must be refused
+	sigB64 := base64.StdEncoding.EncodeToString(signed.Signature)
+	keyB64 := base64.StdEncoding.EncodeToString(signed.KeyOctets)
+	textVariants := func(b string) map[string]string {
+		m := map[string]string{"with ! appended": b + "!", "with = appended": b + "=", "with a blank appended": b + " ", "with A appended": b + "A",
+			"with AA== appended": b + "AA==", "with ==== appended": b + "====", "with a blank in the middle": b[:len(b)/2] + " " + b[len(b)/2:],
+			"with a tab in front": "\t" + b, "with its last character removed": b[:max(len(b)-1, 0)]}
+		if t := strings.TrimRight(b, "="); t != b {
+			m["without its padding"] = t
+		}
+		if u := strings.NewReplacer("+", "-", "/", "_").Replace(b); u != b {
+			m["in the URL-safe alphabet"] = u
+		}
+		return m
+	}
+	for name, txt := range textVariants(sigB64) {
+		txt := txt
+		add("signature text "+name, func(w *world) bool { w.SigText = &txt; return true })
+	}
+	for name, txt := range textVariants(keyB64) {
+		txt := txt
+		add("public key text "+name, func(w *world) bool { w.KeyText = &txt; return true })
+		add("public key text "+name+" (tag made to fit the decodable part)", func(w *world) bool {
+			w.KeyText = &txt
+			// the tag a decoder that stops at the first bad character would compute
+			if b, e := ref.StrictBase64(txt[:len(txt)/4*4]); e == nil {
+				w.F.KeyTag = ref.KeyTag(ref.DNSKEYRdata(w.KeyFlags, w.KeyProto, w.KeyAlg, b))
+				return signAs(w)
+			}
+			return false
+		})
+	}
 	resign := func(w *world) bool { // the holder of the private key signs again for the altered key record
 		d, e := signedData(w.Set, w.F)
 		if e != nil {
